@@ -473,4 +473,82 @@ def SeqScan.env (sc : SeqScan) (m : LinMod) (k : Nat) : PlayEnv :=
 def rowTrace (fs : List PlaySt) : List (Nat × Nat) :=
   (fs.filter fun s => s.frame = 0).map fun s => (s.ord, s.row)
 
+/-- the scan-style record (`RowRec`) of a rendered frame that starts a row: position, speed /
+tempo / pattern delay in force after the row's effect, Σ frame_time of all earlier frames -/
+def recOf (s : PlaySt) : RowRec :=
+  { ord := s.ord, row := s.row, speed := s.speed, bpm := s.bpm, delay := s.delay,
+    t0 := s.time - tick s.bpm }
+
+/-- the rows entered in a list of rendered frames, as scan-style records -/
+def rowRecs (fs : List PlaySt) : List RowRec :=
+  (fs.filter fun s => s.frame = 0).map recOf
+
+/-! ## decidable hypotheses of the simulation theorem (`C18_scan_eq_play_seq`), evaluated by the driver -/
+
+/-- effect parameters inside the vocabulary: speed ≥ 1, tempo ≥ 20 (`XMP_MIN_BPM`) -/
+def Fx.wfb : Fx → Bool
+  | .speed s => decide (1 ≤ s)
+  | .tempo t => decide (20 ≤ t)
+  | _ => true
+
+/-- the module class: patterns non-empty with in-vocabulary parameters, initial speed ≥ 1 and tempo ≥ 20,
+at most 256 orders, restart position inside the order list; in marker formats pattern numbers
+0xfe / 0xff are never real patterns and an end marker in the order list excludes a restart position -/
+def modWFb (m : LinMod) : Bool :=
+  m.pats.all (fun p => !p.isEmpty && p.all Fx.wfb) && decide (1 ≤ m.spd) && decide (20 ≤ m.bpm) &&
+  decide (m.len ≤ 256) && decide (m.rst < m.len) &&
+  (!m.marker || (decide (m.npat ≤ 254) &&
+    (decide (m.rst = 0) || (List.range m.len).all (fun o => m.patOf o != 0xff))))
+
+/-- the first order from `o` on that holds a pattern, if only skipped orders (no pattern, not an end
+marker) lie before it -/
+def firstPlay (m : LinMod) : Nat → Nat → Option Nat
+  | 0, _ => none
+  | f + 1, o =>
+    if o ≥ m.len then none
+    else if m.patOf o < m.npat then some o
+    else if m.marker && m.patOf o == 0xff then none
+    else firstPlay m f (o + 1)
+
+/-- The hypotheses of the simulation theorem for `scan_module(ep, chain)` started from `ctl0` / `info0`
+and the player environment `e` (module `e.m`): module class; the entry point leads to a playable
+order; the orders below a secondary entry point are taken; order 0 does not carry the chain number of
+a secondary sequence; the scan is accepted; `e` reads this scan's end point / visit count, agrees with it on
+`sequence_control[rst]` and finds the module's initial speed / tempo at the first order. -/
+def seqHypB (e : PlayEnv) (ep chain : Nat) (ctl0 : List Nat) (info0 : List OrdInfo) : Bool :=
+  let m := e.m
+  match firstPlay m (m.len + 1) ep with
+  | none => false
+  | some o1 =>
+    let r := scanModule m ep chain ctl0 info0
+    modWFb m && decide (ep < m.len) &&
+    (decide (ep = 0) || (List.range ep).all (fun o => ctl0.getD o 0xff != 0xff)) &&
+    (decide (ep = 0) || !(decide (0 < m.len ∧ m.patOf 0 < m.npat)) || ctl0.getD 0 0xff != chain) &&
+    decide (chain < 255) && decide (m.len ≤ ctl0.length) && decide (0 ≤ r.ret) &&
+    decide (e.si.seq = chain) && decide (e.si.ep = ep) && decide (e.si.endOrd = r.endOrd) &&
+    decide (e.si.endRow = r.endRow) && decide (e.si.num = r.num) &&
+    (!(decide (m.patOf m.rst < m.npat)) ||
+      (decide (e.ctl.getD m.rst 0xff = chain) == decide (r.ctl.getD m.rst 0xff = chain))) &&
+    decide ((e.info.getD o1 {}).speed = m.spd) && decide ((e.info.getD o1 {}).bpm = m.bpm)
+
+/-- `seqLoop` again, recording for every accepted sequence the entry point and the
+`sequence_control` / `xxo_info` its scan started from (`n` = number of sequences accepted so far) -/
+def seqLoopPre (m : LinMod) : Nat → Nat → List Nat → List OrdInfo → List (Nat × List Nat × List OrdInfo)
+  | 0, _, _, _ => []
+  | fuel + 1, n, ctl, info =>
+    match firstFree ctl m.len with
+    | none => []
+    | some ep =>
+      if n ≥ 255 then [] else
+      let r := scanModule m ep n ctl info
+      if r.ret > 0 then (ep, ctl, info) :: seqLoopPre m fuel (n + 1) r.ctl r.info
+      else seqLoopPre m fuel n r.ctl r.info
+
+/-- for each sequence of `scanSequences m`: entry point, `sequence_control` and `xxo_info` before its scan -/
+def seqPres (m : LinMod) : List (Nat × List Nat × List OrdInfo) :=
+  let ctl0 := List.replicate 256 0xff
+  let info0 : List OrdInfo := List.replicate 256 {}
+  let r0 := scanModule m 0 0 ctl0 info0
+  if r0.ret < 0 then [] else (0, ctl0, info0) :: seqLoopPre m (m.len + 1) 1 r0.ctl r0.info
+
 end Xmp.LinFlow
